@@ -522,7 +522,7 @@ func extraC06(col *Collector, r *RNG, tier string) {
 		f, opts := randFault(r, h, kind, npk, ntx)
 		late := kind == "err" && i%2 == 0 || causeIsTransport(kind) && i%3 == 0
 		opts.cancelLate = late
-		if i%4 == 1 {
+		if i%4 == 1 || (kind == "err" || causeIsTransport(kind) || kind == "eof") && r.Bool() {
 			opts.slowLog = time.Duration(r.Range(2, 25)) * time.Millisecond
 		}
 		s, mp := newStreamer(m, h, 6, firstFile, 4)
